@@ -1,9 +1,11 @@
-/- Driver ops for MMST.  Ops: mmst.state, mmst.step, mmst.judge, mmst.instance, mmst.bounds -/
+/- Driver ops for MMST.  Ops: mmst.state, mmst.step, mmst.judge, mmst.instance, mmst.bounds, mmst.spec -/
 import JumanjiModel.Bridge.Json
 import JumanjiModel.Env.MMST.Model
 import JumanjiModel.Env.MMST.Bounds
 import JumanjiModel.Env.MMST.FeasibleLemmas
 import JumanjiModel.Env.MMST.GenModel
+import JumanjiModel.Env.MMST.Spec
+import JumanjiModel.Bridge.Spec
 open Lean Jb
 
 namespace Jb.MMST
@@ -68,6 +70,15 @@ def opStep : Op := fun j => do
   pure (jObj [("state", jState s'), ("ts", jTimeStep jObs ts),
               ("valid", jBools ((List.range cfg.numAgents).map fun i => decide (legal cfg s i (a.getD i 0))))])
 
+def jNValue (v : Sp.NValue) : Json := jList (fun (e : String × Sp.Arr) => jObj [("key", jStr e.1), ("value", SpecOps.jArr e.2)]) v
+
+/-- {cfg} → the model's `obsSpec`, `actionSpec`, reward and discount spec in the `speclib.leaf_json` layout -/
+def opSpec : Op := fun j => do
+  let cfg ← getCfg (← field j "cfg")
+  pure (jObj [("observation_spec", SpecOps.jNested (obsSpec cfg)), ("action_spec", SpecOps.jLeaf (actionSpec cfg)),
+              ("reward_spec", SpecOps.jLeaf PzS.rewardSpec), ("discount_spec", SpecOps.jLeaf PzS.discountSpec),
+              ("action_spec_wf", jBool (actionSpec cfg).WF), ("generate_value", SpecOps.jArr (actionSpec cfg).generate)])
+
 /-- {cfg, state} → {mask (L1 mask function on the current arrays and flags), legal (L2), obs (L2 observe),
     feasible, solution, node_exclusive (information only), flags_fresh, objective} -/
 def opState : Op := fun j => do
@@ -81,7 +92,13 @@ def opState : Op := fun j => do
               ("info_feasible_bookkeeping", jStr (if decide (Feasible cfg s) then "yes" else "no")),
               ("info_route_walk", jStr (if decide (RouteWalk cfg s) then "yes" else "no")),
               ("info_node_exclusive", jStr (if decide (NodeExclusive cfg s) then "yes" else "no")),
-              ("info_flags_fresh", jStr (if decide (FlagsFresh cfg s) then "yes" else "no"))])
+              ("info_flags_fresh", jStr (if decide (FlagsFresh cfg s) then "yes" else "no")),
+              -- wave 4 (C01 membership): the timestep the model's `reset` builds on this state, the L1 observation as
+              -- spec-level arrays (`toNValue`), its membership in the model's `obsSpec`, the invariant `SpecInv`
+              ("reset_ts", jTimeStep jObs (reset cfg s).2),
+              ("nvalue", jNValue (toNValue (observeL1 cfg s))),
+              ("obs_in_spec", jBool ((obsSpec cfg).valid (toNValue (observeL1 cfg s)))),
+              ("spec_inv", jBool (decide (SpecInv cfg s)))])
 
 /-- {cfg, state, action, next, ts} → {illegal_ok: null when every agent's action is legal} -/
 def opJudge : Op := fun j => do
@@ -137,5 +154,5 @@ def opBounds : Op := fun j => do
 
 def ops : List (String × Op) :=
   [("mmst.step", opStep), ("mmst.state", opState), ("mmst.judge", opJudge), ("mmst.instance", opInstance),
-   ("mmst.bounds", opBounds)]
+   ("mmst.bounds", opBounds), ("mmst.spec", opSpec)]
 end Jb.MMST
